@@ -19,7 +19,7 @@ structure TermLe (s : Sys) : Prop where
     ∀ e ∈ x.entries, e.term ≤ x.term
   net : ∀ x ∈ s.net, x.msgType = .msgAppend → ∀ e ∈ x.entries, e.term ≤ x.term
 
-theorem term_le (H : Hyp2 cfg c0 h) : ∀ (n : Nat) (s : Sys), h[n]? = some s → TermLe s := by
+theorem term_le (H : Hyp2w cfg c0 h) : ∀ (n : Nat) (s : Sys), h[n]? = some s → TermLe s := by
   refine hist_induct h _ ?_ ?_
   · intro s h0
     have hinit := hist_init H.hist s h0
